@@ -10,7 +10,7 @@ EXPL = ("R10.1 each sink-level merge/insert/send body moves its by-value entry i
         "documented operation to (accumulator, value): Sum add_assign, KeepLast an unconditional `= Some(value)`, Flatten merge, Distribution / "
         "Histogram add_value / record, the wrappers delegate to the inner insert; R10.2 flush drains the whole map and appends one result "
         "per drained item, built from the closed key and the closed aggregate; R10.3 the tee feeds and flushes both branches on every "
-        "path; R10.4 the worker handles Entry by exactly one merge and acknowledges a Flush only after flushing; R10.10 the future returned by the worker sink's flush sends its request and awaits the paired "
+        "path; R10.4 the worker handles Entry by exactly one merge and acknowledges a Flush only after flushing; R10.11 every raw-entry lookup/insert with a precomputed hash computes that hash with the hasher of the same map (a retained copy of the builder is accepted only while no body replaces the map); R10.10 the future returned by the worker sink's flush sends its request and awaits the paired "
         "acknowledgement on every path to completion (followed across its await points); R10.5 every spawned "
         "worker closure can return, and the disconnected outcome of the receive leads to Return through a final flush; R10.6 "
         "merge-on-drop guards take and merge exactly once; R10.8 (on the proc macro's own MIR) the generators of Merge/MergeRef impls "
@@ -127,13 +127,19 @@ def run(ctx):
                   "%s(accum, value)" % sites[0].name if sites else "")
     ctx.floor("R10.9", "value strategies judged against the table", n9, 6)
     # ------------------------------------------------------------------ R10.2 flush emits everything
-    fl = [b for b in F.all_bodies(AG) if b.name == "flush" and b.impl and (b.impl.get("trait") or "").endswith("::FlushableSink") and
-          any(c.name == "drain" and "HashMap" in c.def_ for c in b.calls())]
+    # emptying the map: `drain()` on it, or taking the whole map out (mem::take / replace) and iterating the taken value
+    def _emptiers(b):
+        out = [c for c in b.calls() if c.name == "drain" and "HashMap" in c.def_]
+        for c in b.calls():
+            if c.is_("core::mem::take", "core::mem::replace") and c.args and "HashMap<" in b.local_ty(c.dest["l"]):
+                out.append(c)
+        return out
+    fl = [b for b in F.all_bodies(AG) if b.name == "flush" and b.impl and (b.impl.get("trait") or "").endswith("::FlushableSink") and _emptiers(b)]
     ctx.floor("R10.2", "flush bodies draining a map", len(fl), 1)
     for b in fl:
         pr = Prov(b)
         key = fnkey(b)
-        dr = [c for c in b.calls() if c.name == "drain" and "HashMap" in c.def_]
+        dr = _emptiers(b)
         for c in dr:
             ro = pr.operand(c.args[0])
             ctx.check(any(x[0] == "arg" and x[1] == 1 and x[2] for x in ro), "R10.2", key + "#drains-own-storage", loc(b, c.bb), "drain is not applied to the aggregator's own storage")
@@ -174,6 +180,48 @@ def run(ctx):
                                 srcs.add(y[2][-1] if y[2] else "")
                     ctx.check(len(closes) >= 2 and len(srcs) >= 2, "R10.2", key + "#result-from-key-and-aggregate", loc(b, a.bb),
                               "the appended result is not built from both the closed key and the closed aggregate of the drained item (closes=%d, item parts=%s)" % (len(closes), sorted(srcs)))
+    # ------------------------------------------------------------------ R10.11 keyed lookups hash with the table's own hasher
+    nh = 0
+    for b in F.all_bodies(AG):
+        if "::tests::" in b.path:
+            continue
+        raws = [c for c in b.calls() if c.name in ("from_hash", "from_key_hashed_nocheck", "insert_hashed_nocheck", "insert_with_hasher") and "hashbrown" in c.def_]
+        if not raws:
+            continue
+        pr = Prov(b, adapter_pred=lambda t: (t.get("callee") or {}).get("name") in ("raw_entry_mut", "raw_entry", "deref", "deref_mut"))
+        maps = set()
+        for c in b.calls():
+            if c.name in ("raw_entry_mut", "raw_entry") and c.args:
+                maps |= {x for x in pr.operand(c.args[0]) if x[0] == "arg"}
+        for c in raws:
+            hop = [a for a in c.args if op_local(a) is not None and b.local_ty(op_local(a)) == "u64"]
+            if not hop:
+                continue
+            nh += 1
+            okh, why = False, "hash origin not understood"
+            for x in pr.operand(hop[0]):
+                if x[0] == "call" and (b.term(x[1]).get("callee") or {}).get("name") in ("hash_one", "make_hash", "hash"):
+                    ro = pr.operand(b.term(x[1])["args"][0])
+                    hcalls = [y for y in ro if y[0] == "call" and (b.term(y[1]).get("callee") or {}).get("name") == "hasher"]
+                    same = False
+                    for y in hcalls:
+                        mo = {z for z in pr.operand(b.term(y[1])["args"][0]) if z[0] == "arg"}
+                        same = same or bool(mo & maps)
+                    okh = same
+                    why = "" if same else "the hash is computed with %s, not with `<the same map>.hasher()`" % sorted(map(str, ro))[:2]
+            if not okh:
+                # a retained copy of the builder is equivalent as long as the table itself is never replaced (drain/clear keep its builder)
+                replaced = [x for bb_ in F.all_bodies(AG) if "::tests::" not in bb_.path for x in bb_.calls()
+                            if x.is_("core::mem::take", "core::mem::replace") and x.args and "HashMap<" in bb_.local_ty(x.dest["l"])]
+                if not replaced:
+                    okh = True
+                else:
+                    why += "; and the table is replaced in %s" % sorted({x.body.name for x in replaced})
+            ctx.check(okh, "R10.11", fnkey(b) + "#hash-from-the-tables-own-hasher@%s" % c.name, loc(b, c.bb),
+                      "a raw-entry lookup/insert uses a hash that is not computed with the hasher of the very table it is applied to (%s): once the table "
+                      "is replaced or re-seeded, lookups miss existing keys and one key gets several aggregates" % why,
+                      "hash = map.hasher().hash_one(key) of the same map")
+    ctx.floor("R10.11", "raw-entry operations with a precomputed hash", nh, 2)
     # ------------------------------------------------------------------ R10.3 tee symmetry
     tees = []
     for imp in F.impls_of("AggregateSink") + F.impls_of("FlushableSink"):
